@@ -358,7 +358,7 @@ func solveGround(cfg *SolverCfg, query string) solverAnswer {
 		return solverAnswer{status: "error"}
 	}
 	defer os.Remove(file)
-	to := cfg.Full / 2
+	to := cfg.Full
 	if to < 3*time.Second {
 		to = 3 * time.Second
 	}
@@ -397,6 +397,13 @@ func splitGoal(g *Term) []*Term {
 			out = append(out, Implies(g.Args[0], c))
 		}
 		return out
+	case "ite":
+		if g.Sort == BoolSort {
+			var out []*Term
+			out = append(out, splitGoal(Implies(g.Args[0], g.Args[1]))...)
+			out = append(out, splitGoal(Implies(Not(g.Args[0]), g.Args[2]))...)
+			return out
+		}
 	case "or":
 		// (or a (and b1 .. bn)) splits like (=> (not a) (and b1 .. bn))
 		for i, d := range g.Args {
